@@ -101,7 +101,24 @@ class G36:
             if r.random() < 0.5:
                 base += "{{ self.b0() }}"
             self.aux["base.html"] = base
-            main = "{% extends 'base.html' %}"
+            parent = "base.html"
+            if r.random() < 0.4:
+                # a middle template: the chain child -> mid -> base
+                self.aux["mid.html"] = "{% extends 'base.html' %}{% block b0 %}" + self.body(1) + "{{ super() }}{% endblock %}"
+                parent = "mid.html"
+            # how the parent is named: known at compile time, a dynamic name, or decided at run time inside an
+            # {% if %} (the code generator then emits the delegation to the parent under `if parent_template is not None`)
+            form = r.choice(["known", "known", "dynamic", "cond", "cond_else", "cond_false"])
+            if form == "known":
+                main = "{% extends '" + parent + "' %}"
+            elif form == "dynamic":
+                main = "{% set layout = '" + parent + "' %}{% extends layout %}"
+            elif form == "cond":
+                main = "{% if f() %}{% extends '" + parent + "' %}{% endif %}"
+            elif form == "cond_else":
+                main = "{% if xs[1] %}{% extends 'base.html' %}{% else %}{% extends '" + parent + "' %}{% endif %}"
+            else:
+                main = "{% if xs[1] %}{% extends '" + parent + "' %}{% endif %}" + self.atom()
             for i in range(nb):
                 if r.random() < 0.8:
                     main += "{% block b" + str(i) + " %}" + self.body(2) + r.choice(["", "{{ super() }}"]) + "{% endblock %}"
@@ -119,6 +136,10 @@ FIXED = [
     {"main.html": "a{% for x in xs if x %}[{{ x }}{{ f() }}{{ af() }}]{% include 'i.html' %}{% endfor %}z", "i.html": "I{{ f() }}"},
     {"main.html": "{% extends 'base.html' %}{% block b0 %}{% for x in xs if x and af() %}{{ loop.index }}{{ f() }}{% endfor %}{{ super() }}{% endblock %}",
      "base.html": "B{% block b0 %}{{ f() }}{% endblock %}{{ self.b0() }}E"},
+    # extends decided at run time, three levels, blocks with super(): the consumer stops while the parent streams
+    {"main.html": "{% if f() %}{% extends 'mid.html' %}{% endif %}{% block b %}c1{{ af() }}c2{% endblock %}",
+     "mid.html": "{% extends 'base.html' %}{% block a %}m1{{ super() }}m2{% endblock %}",
+     "base.html": "B1{% block a %}ba{% endblock %}B2{% block b %}bb1{{ f() }}bb2{% endblock %}B3"},
     # generators made by filters, as loop iterable and under |first (known findings C36-F2 / C36-F3)
     {"main.html": "{% for x in xs|select('odd') %}{{ af() }}{{ x }}{{ f() }}{% endfor %}|{% for x in xs|map('string') %}{{ loop.index }}{{ af() }}{% endfor %}"},
     {"main.html": "a{{ xs|select('odd')|first }}b{{ f() }}"},
